@@ -287,7 +287,13 @@ func (propC04) Judge(sc *Scenario) *Verdict {
 		fkind += "+fd"
 	}
 	finish := func(outcome string) *Verdict {
-		v.Sig = strings.Join([]string{"C04", p.Mode, fmt.Sprintf("opts%#x", d.Options), tokenClasses(argv), fkind, outcome}, "|")
+		tc := tokenClasses(argv)
+		for _, c := range strings.Split(tc, "+") {
+			if c != "" {
+				v.stat("cell.token:" + c + "|" + outcome)
+			}
+		}
+		v.Sig = strings.Join([]string{"C04", p.Mode, fmt.Sprintf("opts%#x", d.Options), fkind, outcome}, "|")
 		nt := p.Fault != nil || len(p.Fd1Faults) > 0
 		for _, a := range argv {
 			if strings.HasPrefix(a, "-") {
